@@ -23,7 +23,8 @@ from .. import engine, fpx
 from ..translate import blocks
 
 THEOREMS = ["generated_wf", "exp_shape", "ln2hi_short", "ln2_enclosure", "exp_reduction_16", "exp_reduction_32", "exp_reduction_64",
-            "exp_constants", "exp_reconstruction_bounds", "exp_reduction_bits_f32", "exp_reduction_bits_f16", "exp_reduction_bits_f64"]
+            "exp_constants", "exp_reconstruction_bounds", "exp_reduction_bits_f32", "exp_reduction_bits_f16", "exp_reduction_bits_f64",
+            "exp_kmax", "exp_reduction_bits_total_f16", "exp_reduction_bits_total_f32", "exp_reduction_bits_total_f64"]
 SEARCHED = ["k integral, |r+c| <= 0.55 ln2, |k ln2 + (r+c) - x| <= ulp(x) (mpmath reconstruction; also a theorem over Q, see THEOREMS)",
             "trigonometric reduction: k in {0,1,2,3}, |r| <= 1.1 pi/4, remainder within 1 ULP (10 ULP float16) — search only (not traceable)"]
 TRUSTED = [
@@ -39,7 +40,8 @@ LEVEL_TEXT = ("Partial proof. Theorems on the regenerated exponent-reduction pro
               "and the subtraction x - k*ln2hi are EXACT, k*(ln2hi+ln2lo) + (r + c) differs from x only by the rounding error of k*ln2lo (<= 5e-5 / 2e-11 / 3e-23), "
               "|r + c| <= 0.361 / 0.348 / 0.347 < 0.55 ln 2, and k = 0 gives the identity; with the rational enclosure of ln 2 the distance of k*ln 2 + (r + c) from x is at most "
               "1.2e-4 / 3e-11 / 5e-23 (exp_reconstruction_bounds). floor enters as the mathematical floor of the rounded argument. exp_reduction_bits_f16/f32/f64 carry the statement to the BIT PATTERNS the regenerated "
-              "program computes (exp_shape + correct rounding of the softfloat mul/add/sub), assuming of the floor oracle only that it returns the pattern of the floor. "
+              "program computes (exp_shape + correct rounding of the softfloat mul/add/sub), assuming of the floor oracle only that it returns the pattern of the floor and that the five arithmetic results are finite; exp_reduction_bits_total_f16/f32/f64 (Props/C17Total.lean) remove the finiteness "
+              "assumptions: from |x| <= 11.09 / 88.73 / 709.79 every intermediate stays below 2^(a+4) <= Lmax (exp_finite_of_bound, on the no-overflow lemmas mul/add/sub_finite), so the statement holds for EVERY input pattern of the documented domain. "
               "The trigonometric reduction is decided by mpmath-based search on the real functions.")
 LEVEL_NOTE = "Exponential reduction: theorem over Q (exactness of r, reconstruction error, |r+c| bound). Trigonometric reduction: search only (Payne–Hanek analysis not formalised)."
 TECHNIQUE = "Lean 4 kernel-checked structural + rational-enclosure theorems on regenerated programs; mpmath reconstruction search"
@@ -258,7 +260,7 @@ def run(ctx):
     ctx.rule = ("exponential: neighbours of k ln2 and (k+1/2) ln2 for k over the whole range, log-uniform samples, the domain edge; trigonometric: neighbours of k pi/2, "
                 "the pi/4 transition, log-uniform up to largest/2^j; non-trivial = inside the documented domain with k != 0; distinct by bit pattern")
     V, progs, errors = generate(ctx)
-    broken = ctx.lean_stage(["FAVerif.Props.C17"], THEOREMS)
+    broken = ctx.lean_stage(["FAVerif.Props.C17", "FAVerif.Props.C17Total"], THEOREMS)
     engine.run_variants(ctx, V, progs, errors, FMTS, gen_inputs=gen_exp_inputs, check_clause=check_exp, n_per=ctx.scale(2500, 100000), broken=broken,
                         lean_every=8)
     # trigonometric reduction: eager real code only
